@@ -64,6 +64,10 @@ def defColl (fs : List String) : Option Coll :=
         | [n, h, ps, v] => match parseHexList n, parseHexList h, parseHexPairs ps, parseF64 v with
           | some [n], some [h], some ps, some v => (Desc.new n h [] ps).map fun d => (d, mkFam d .counter [{ labels := d.constPairs, val := .counter v }])
           | _, _, _, _ => none
+        -- a fifth field: the sample's timestamp (`none` = never set, reads as 0)
+        | [n, h, ps, v, ts] => match parseHexList n, parseHexList h, parseHexPairs ps, parseF64 v, (if ts == "none" then some 0 else ts.toInt?) with
+          | some [n], some [h], some ps, some v, some ts => (Desc.new n h [] ps).map fun d => (d, mkFam d .counter [{ labels := d.constPairs, val := .counter v, ts := ts }])
+          | _, _, _, _, _ => none
         | _ => none
       -- `nodesc=1`: the collector describes nothing (collector id 0) but still collects its samples
       built.map fun l => { descs := if fs.contains "nodesc=1" then [] else l.map (·.1), fams := l.map (·.2) }
